@@ -355,3 +355,46 @@ def run_cpp_callbacks(ctx):
         ctx.violation("direct:asan-cpp", {"what": "AddressSanitizer/LeakSanitizer report or crash while running callback histories through the C++ API",
                                           "report": r.stderr[-2500:], "rc": r.returncode}, True)
     return nh, nops
+
+
+# ---- recorded finding of the unchanged tree (audit of 2026-09-30): owned slice parameters through the C++ API
+OWNED_BRIDGE = """#[diplomat::bridge]
+pub mod ffi {
+    #[diplomat::opaque]
+    pub struct Owned;
+    impl Owned {
+        pub fn sum(v: Box<[f64]>) -> f64 { v.iter().sum() }
+        pub fn sum_borrowed(v: &[f64]) -> f64 { v.iter().sum() }
+    }
+}
+"""
+OWNED_DRIVER = r'''
+#include "Owned.hpp"
+#include <cstdio>
+#include <vector>
+int main() {
+  std::vector<double> v{1.5, 2.5, 4.0};
+  printf("borrowed %.1f\n", Owned::sum_borrowed(diplomat::span<const double>(v.data(), v.size())));
+  printf("owned %.1f\n", Owned::sum(diplomat::span<double>(v.data(), v.size())));
+  printf("after %.1f\n", v[0] + v[1] + v[2]);     /* the caller's vector is still the caller's */
+  return 0;
+}
+'''
+
+
+def run_cpp_owned_slices(ctx):
+    """`Box<[f64]>` parameter: the C++ API takes a span over the caller's buffer; Rust must not free that buffer"""
+    d, lib, p = e2e.bridge_crate("c03owned", OWNED_BRIDGE)
+    if lib is None:
+        raise MachineryError("C03: the owned-slice bridge does not build: " + p.stderr[-800:])
+    q = e2e.run_tool("cpp", os.path.join(d, "src/lib.rs"), os.path.join(d, "out_cpp"))
+    if q.returncode != 0:
+        return 0          # refused / reported by the backend: nothing to call
+    open(os.path.join(d, "drvo.cpp"), "w").write(OWNED_DRIVER)
+    c, r = e2e.cc_run(os.path.join(d, "drvo.cpp"), [os.path.join(d, "out_cpp")], lib, os.path.join(d, "drvo"), std="c++17", cxx=True, extra=["-fsanitize=address"])
+    if r is None:
+        return 0          # the API shape is different (e.g. takes ownership explicitly): not this finding
+    if r.returncode != 0 or "after 8.0" not in r.stdout:
+        ctx.violation("cpp-owned-slice-param", {"what": "Owned::sum(span over a std::vector) -> Rust builds a Box<[f64]> from the caller's pointer and frees it: " +
+                      (next((l.strip() for l in (r.stderr or "").split("\n") if "AddressSanitizer" in l), "driver exit %d" % r.returncode)[:200] if r.returncode != 0 else r.stdout.strip()), "lib_rs": OWNED_BRIDGE}, True)
+    return 1
